@@ -1,6 +1,7 @@
 import Driver.Replay
 /-
   Property oracles evaluated on the implementation's own observations (O).
+  They read only OP / OBS / EV / ORA lines of the trace — never the model's state.
 -/
 namespace TV.Driver
 
@@ -11,8 +12,150 @@ structure OResult where
   detail : String := ""
   cov : List String := []
 
+def toks (l : String) : List String := (l.splitOn " ").filter (· != "")
+
+/-- (line number, OP tokens, OBS tokens) for every operation of a case, in order. -/
+def opObsPairs (lines : List String) : List (Nat × List String × List String) :=
+  let (acc, _, _) := lines.foldl (fun (st : List (Nat × List String × List String) × Option (Nat × List String) × Nat) l =>
+    let (acc, cur, ln) := st
+    let t := toks l
+    match t with
+    | "OP" :: rest =>
+      -- a pending ctl op without OBS (e.g. `q`) is emitted with an empty observation
+      let acc := match cur with | some (n, op) => acc ++ [(n, op, [])] | none => acc
+      (acc, some (ln, rest), ln + 1)
+    | "OBS" :: rest =>
+      match cur with
+      | some (n, op) => (acc ++ [(n, op, rest)], none, ln + 1)
+      | none => (acc, none, ln + 1)
+    | _ => (acc, cur, ln + 1)) ([], none, 1)
+  acc
+
+def hasCoin (lines : List String) : Bool :=
+  lines.any (fun l => l == "ORA fail 1" || l.startsWith "ORA repair")
+
+def msgId (hex : String) : Option Nat :=
+  if hex.length < 4 then none else
+  let cs := hex.toList.take 4
+  cs.foldl (fun acc c =>
+    match acc with
+    | none => none
+    | some v =>
+      let d := if '0' ≤ c && c ≤ '9' then some (c.toNat - '0'.toNat)
+               else if 'a' ≤ c && c ≤ 'f' then some (c.toNat - 'a'.toNat + 10) else none
+      d.map (fun d => v * 16 + d)) (some 0)
+
+/-! ### C03 -/
+
+structure C03St where
+  explicit : List (Nat × Nat) := []          -- directions (src host, dst host) explicitly partitioned now
+  lastLinks : List (Nat × Nat × Nat) := []   -- (src host, dst host, msg id) in flight at the last `links` view
+  linksFresh : Bool := false                 -- no send since the last `links` view
+  bad : List (Nat × String) := []            -- msg id → why it must never be delivered
+  good : List (Nat × Nat × Nat) := []        -- (id, src, dst) that must be delivered (fail = 0 only)
+  recvd : List Nat := []
+  res : OResult := {}
+
+def hostTok (t : String) : Nat := (t.drop 1).toNat?.getD 0
+def addrHost (t : String) : Option Nat :=
+  match t.splitOn ":" with
+  | [ip, _] => if ip.startsWith "h" then some (hostTok ip) else none
+  | _ => none
+
+def parseLinksView (obs : List String) : List (Nat × Nat × Nat) :=
+  -- tokens like h0-h1[h0:9000>h1:9000/udp:0001ab,...]
+  obs.foldl (fun acc t =>
+    match t.splitOn "[" with
+    | [_, body] =>
+      let body := (body.dropEnd 1).toString
+      if body.isEmpty then acc else
+      acc ++ (body.splitOn ",").filterMap (fun m =>
+        match m.splitOn "/" with
+        | [sd, proto] =>
+          match sd.splitOn ">" with
+          | [s, d] =>
+            match addrHost s, addrHost d, (if proto.startsWith "udp:" then msgId (proto.drop 4).toString else none) with
+            | some sh, some dh, some id => some (sh, dh, id)
+            | _, _, _ => none
+          | _ => none
+        | _ => none)
+    | _ => acc) []
+
+def c03Partition (st : C03St) (dirs : List (Nat × Nat)) (useLinks : Bool) : C03St :=
+  let doomed := if useLinks && st.linksFresh then
+      st.lastLinks.filter (fun (s, d, _) => dirs.contains (s, d)) |>.map (fun (_, _, id) => (id, "in flight when partitioned"))
+    else []
+  -- messages that were in flight in a partitioned direction need not be delivered any more
+  let inDirs := fun (x : Nat × Nat × Nat) => dirs.contains (x.2.1, x.2.2)
+  { st with explicit := st.explicit ++ dirs.filter (fun d => !st.explicit.contains d),
+            bad := st.bad ++ doomed,
+            good := st.good.filter (fun g => !inDirs g) }
+
+def c03Repair (st : C03St) (dirs : List (Nat × Nat)) : C03St :=
+  { st with explicit := st.explicit.filter (fun d => !dirs.contains d) }
+
+def c03Step (failZero : Bool) (st : C03St) (x : Nat × List String × List String) : C03St :=
+  let (ln, op, obs) := x
+  let both := fun (a b : String) => [(hostTok a, hostTok b), (hostTok b, hostTok a)]
+  let one := fun (a b : String) => [(hostTok a, hostTok b)]
+  match op with
+  | ["ctl", "links"] => { st with lastLinks := parseLinksView obs, linksFresh := true }
+  | ["ctl", "partition", a, b] => c03Partition st (both a b) true
+  | ["ctl", "partition1", a, b] => c03Partition st (one a b) true
+  | ["ctl", "repair", a, b] => c03Repair st (both a b)
+  | ["ctl", "repair1", a, b] => c03Repair st (one a b)
+  | [_, "net_partition", a, b] => c03Partition st (both a b) false
+  | [_, "net_partition1", a, b] => c03Partition st (one a b) false
+  | [_, "net_repair", a, b] => c03Repair st (both a b)
+  | [_, "net_repair1", a, b] => c03Repair st (one a b)
+  | [h, "udp_send", _, dst, hex] =>
+    let st := { st with linksFresh := false }
+    if obs.head? != some "ok" then st else
+    match addrHost dst, msgId hex with
+    | some d, some id =>
+      let s := hostTok h
+      if s == d then st
+      else if st.explicit.contains (s, d) then { st with bad := st.bad ++ [(id, "sent while explicitly partitioned")] }
+      else if failZero then { st with good := st.good ++ [(id, s, d)] } else st
+    | _, _ => st
+  | [_, "udp_tryrecv", _, _] =>
+    match obs with
+    | ["ok", _, _, hex] =>
+      match msgId hex with
+      | some id =>
+        let st := { st with recvd := st.recvd ++ [id] }
+        match st.bad.find? (·.1 == id) with
+        | some (_, why) =>
+          if st.res.ok then { st with res := { ok := false, line := ln, detail := s!"datagram {id} delivered although {why}" } } else st
+        | none =>
+          if (st.recvd.filter (· == id)).length > 1 && st.res.ok then
+            { st with res := { ok := false, line := ln, detail := s!"datagram {id} delivered twice" } }
+          else st
+      | none => st
+    | _ => st
+  | _ => st
+
+def oracleC03 (lines : List String) : OResult :=
+  let cfgT := match lines.find? (·.startsWith "CFG ") with | some l => toks l | none => []
+  let failZero := kvGet cfgT "fail" == some "0" && !lines.any (fun l => l.startsWith "OP ctl setfail" || l.startsWith "OP ctl setlinkfail")
+  let drained := lines.any (· == "OP ctl mark drained")
+  let st := (opObsPairs lines).foldl (c03Step failZero) {}
+  let res := st.res
+  -- keeps-flowing half: with fail_rate = 0 every datagram sent across a direction that was not
+  -- explicitly partitioned (and not caught in flight by a later partition) is delivered.
+  let res := if res.ok && failZero && drained then
+      match st.good.find? (fun g => !st.recvd.contains g.1) with
+      | some (id, s, d) => { res with ok := false, detail := s!"datagram {id} h{s}->h{d} sent on a healthy direction was never delivered" }
+      | none => res
+    else res
+  let cov := (if st.bad.isEmpty then [] else ["o:badmsgs"]) ++ (if st.good.isEmpty then [] else ["o:goodmsgs"])
+  let res := { res with cov := cov }
+  if res.ok then res
+  else if hasCoin lines then { res with pattern := "F-C03-1" } else res
+
 def oracle (prop : String) (lines : List String) : OResult :=
   match prop with
+  | "C03" => oracleC03 lines
   | _ => {}
 
 end TV.Driver
